@@ -729,6 +729,26 @@ class Interp:
             return [val(cur[1] if first else cur[-1], st.set(key, ("tuple",) + (cur[2:] if first else cur[1:-1])))]
         if not (isinstance(f, ast.Attribute) and f.attr in ("append", "extend") and len(call.args) == 1 and not call.keywords):
             return None
+        if getattr(self.domain, "heap", False) and any(isinstance(n_, ast.Call) for n_ in ast.walk(f.value)):
+            # <a call>.append(v): when the call hands back an object some holder keeps (a list on the heap), that object grows
+            got = self.eval(f.value, st, fr, share=True)
+            if not got or not all(r0.kind == "exc" or (is_handle(r0.value) and isinstance(r0.state.get(heap_key(r0.value), None), tuple)
+                                                      and r0.state.get(heap_key(r0.value))[:1] == ("tuple",)) for r0 in got):
+                return None
+            out = []
+            for r0 in got:
+                if r0.kind == "exc":
+                    out.append(r0)
+                    continue
+                hk = heap_key(r0.value)
+                for r in self.eval(call.args[0], r0.state, fr):
+                    if r.kind == "exc":
+                        out.append(r)
+                        continue
+                    base = r.state.get(hk)
+                    els = [r.value] if f.attr == "append" else self._exact_elements(r.value)
+                    out.append(val(NONE, r.state.set(hk, base + tuple(els) if els is not None else TOP)))
+            return out
         key = self._key_of(f.value, fr, st)   # a local, or an attribute of self kept in the state
         if key is None or not st.has(key):
             return None
@@ -1065,6 +1085,12 @@ class Interp:
             return fr.local(e.id)
         if isinstance(e, ast.NamedExpr) and isinstance(e.target, ast.Name):
             return fr.local(e.target.id)   # (x := ...) tested for truth: what is learnt is about x
+        if st is not None and isinstance(e, ast.Call) and isinstance(e.func, ast.Name) and e.func.id == "getattr" and len(e.args) == 2 and not e.keywords \
+                and isinstance(e.args[0], (ast.Name, ast.Attribute)) and not any(isinstance(n_, ast.Call) for n_ in ast.walk(e.args[1])):
+            # getattr(x, <constant name>) names the same slot as x.<name>
+            got = self.eval(e.args[1], st, fr)
+            if len(got) == 1 and got[0].kind == "val" and isinstance(got[0].value, tuple) and got[0].value[:1] == ("const",) and isinstance(got[0].value[1], str) and got[0].value[1].isidentifier():
+                return self._slot_of(ast.copy_location(ast.Attribute(value=e.args[0], attr=got[0].value[1], ctx=ast.Load()), e), fr, st)
         ch = attr_chain(e)
         if ch and fr.selfname and ch[0] == fr.selfname and len(ch) >= 2:
             return fr.self_key + "." + ".".join(ch[1:])
@@ -1254,7 +1280,7 @@ class Interp:
             return self._dd(out)
         if isinstance(s, ast.Return):
             out = []
-            for r in self.eval(s.value, st, fr, share=isinstance(s.value, (ast.Name, ast.Attribute))):   # returning a list / dict the object keeps: the caller gets that object
+            for r in self.eval(s.value, st, fr, share=isinstance(s.value, (ast.Name, ast.Attribute, ast.Call))):   # returning a list / dict the object keeps: the caller gets that object
                 if r.kind == "exc":
                     out.append(("raise", r.value, r.state))
                 else:
@@ -1816,10 +1842,15 @@ class Interp:
         # ("ref", key) entries alias a list / dict that still lives in a caller's variable
         env_locals = []
         for name_, v_ in closure_env:
+            if isinstance(v_, tuple) and len(v_) == 2 and v_[0] == "ref" and v_[1].startswith("cell."):
+                # a cell shared with the defining frame and its other closures: reads and writes go straight to it (the
+                # frame that made this closure -- not another activation of the same function that happens to be running)
+                fr.cellrefs[name_] = v_[1]
+                continue
             if any(name_ in own_names(e.func) for e in fr.enclosing):
                 continue
-            if isinstance(v_, tuple) and len(v_) == 2 and v_[0] == "ref" and v_[1].startswith("cell."):
-                fr.cellrefs[name_] = v_[1]   # a cell shared with the defining frame and its other closures: reads and writes go straight to it
+            if False:
+                pass
             elif isinstance(v_, tuple) and len(v_) == 2 and v_[0] == "ref":
                 env_locals.append((name_, st.get(v_[1], TOP), v_[1]))
             else:
@@ -1864,7 +1895,8 @@ class Interp:
             if a.kwarg:
                 s0 = s0.set(fr.local(a.kwarg.arg), argvals.get(a.kwarg.arg, argvals.get("**", TOP)))
             if isinstance(func, ast.Lambda):
-                outs = [("raise", r.value, r.state) if r.kind == "exc" else ("return", r.value, r.state) for r in self.eval(func.body, s0, fr)]
+                outs = [("raise", r.value, r.state) if r.kind == "exc" else ("return", r.value, r.state)
+                        for r in self.eval(func.body, s0, fr, share=isinstance(func.body, (ast.Name, ast.Attribute)))]
             else:
                 outs = self.exec_block(func.body, [s0], fr)
             results = []
